@@ -139,6 +139,13 @@ def render_hlog_header(rng, fields):
     for k, f in enumerate(fields):
         sp = rng.choice([' ', '  ', ''])
         comma = '' if k == len(fields) - 1 and rng.random() < .5 else ','
+        if rng.random() < .12:
+            # entries with a width the decoder does not know (only 1 and 2 are fields) - one, or several in a row -
+            # comments and blank lines: none of them is a field
+            for _ in range(rng.choice([1, 2, 2, 3])):
+                lines.append(rng.choice(['  { %d, "hl_wide_%d" },' % (rng.choice([0, 3, 4, 8, 9, 12, 21]), rng.randrange(99)),
+                                         '  // { 1, "hl_commented_out" },', '', '  {1,"no_closing_brace"',
+                                         '  { 2, "" },']))
         lines.append('  {%s%d%s,%s"%s"%s}%s ' % (sp, f['size'], sp, sp, f['name'], sp, comma))
     lines.append('};')
     return '\n'.join(lines) + '\n'
